@@ -29,6 +29,10 @@ func ValueOf(query *Query, current Map, any any) (any, error) {
 				// }
 				return nil, err
 			}
+			// a CTE that has not been read yet is stored as a thunk: named as a column it yields its rows
+			if thunk, ok := rs.(CteEvaluation); ok {
+				return thunk()
+			}
 			return rs, nil
 		}
 	case NeutalString:
